@@ -158,6 +158,7 @@ def check_c09(tier):
     jl, meta = [], []
     for i in range(n):
         b = refgen.Builder(r)
+        sect_endnf = False
         for k in range(r.randrange(1, 4)):
             strand = r.choice([1, -1])
             if r.random() < 0.85:
@@ -166,6 +167,7 @@ def check_c09(tier):
                 seq, cs, ce, secs, prot = refgen.make_coding_tx_seq(r, r.randrange(10, 28), r.randrange(0, 10), r.randrange(4, 16), sec=nsec)
                 if r.random() < 0.2:
                     tags.append('mRNA_end_NF')
+                    sect_endnf = sect_endnf or bool(secs)
                     seq = seq[:ce - 3 - r.randrange(0, 3)]; ce = len(seq)
                     secs = [x for x in secs if x + 3 <= len(seq)]
                     prot = refgen.derive_protein(seq, cs, secs)
@@ -184,7 +186,7 @@ def check_c09(tier):
         jl.append(dict(cmd='callAltTranslation', args=a))
         coding = [t for t in ref.txs.values() if t.coding]
         sc = cvgen.spec_cfg(cfg, sect=flags[0], w2f=flags[1])
-        meta.append(dict(ref=ref, cfg=cfg, flags=flags,
+        meta.append(dict(ref=ref, cfg=cfg, flags=flags, sect_endnf=sect_endnf,
                          case=dict(kind='alt', txs=[cvgen.tx_record(ref, t) for t in coding], cfg=sc,
                                    proteome=cvgen.proteome_record(ref))))
     nj = env.NCPU
@@ -214,7 +216,10 @@ def check_c09(tier):
         for v in vs:
             kind, missing, extra = parse_sets(v)
             nontriv = nontriv or bool(x['fasta']) or bool(missing)
-            if kind == 'diff':
+            if kind == 'diff' and m['sect_endnf'] and not extra:
+                rep.violation('sect_endnf', f"callAltTranslation misses SECT peptides {missing[:4]} of an mRNA_end_NF selenoprotein",
+                              dict(rec, missing=missing, observed=[s for _, s in x['fasta']]))
+            elif kind == 'diff':
                 rep.violation(f"alt:{key}", f"callAltTranslation output differs from the definitional set: missing {missing[:5]} "
                               f"extra {extra[:5]} (sect={m['flags'][0]}, w2f={m['flags'][1]})",
                               dict(rec, missing=missing, extra=extra, observed=[s for _, s in x['fasta']]))
